@@ -327,6 +327,10 @@ class workq:
             finally:
                 self._waiters.remove((channels, ev))
 
+            if j.done:
+                # killed or timed out between the hand-over and our wake-up
+                return self.pop(channels)
+
         return j
 
     def prefixmatch(self, prefix):
